@@ -34,6 +34,7 @@ type Harness struct {
 	Tiers         string // "quick,thorough" or "thorough"
 	QueryTimeout  int    // ms
 	Unblock       []string
+	Real          []string
 	MaxPaths      int
 	Expect        string          // "" or "violation" (mutation self-tests)
 	StrLen        int             // string length bound of the bounded (stage B) encoding
@@ -301,6 +302,8 @@ func (w *World) load() error {
 								}
 							case "unblock": // packages whose code this harness executes although blocked by default
 								h.Unblock = append(h.Unblock, strings.Split(v, ",")...)
+							case "real": // execute the code of these functions instead of their stubs
+								h.Real = append(h.Real, strings.Split(v, ",")...)
 							case "ideal":
 								h.Ideal = true
 							case "compose":
